@@ -428,13 +428,13 @@ theorem get_set_ne_none (t : List (Nat × TItem)) (h h' : Nat) (v : TItem) (hne 
   · subst e; simp
   · rw [AMap.get_set_ne _ _ _ _ e]; exact hne
 
-theorem record_step {P : Key → TItem → Rec → Prop} (hP : ∀ k it r p', P k it r → P k { it with pos := p' } r)
+theorem record_step {P : Key → TItem → Rec → Prop} {N : Key → Prop} (hP : ∀ k it r p', P k it r → P k { it with pos := p' } r)
     (hInj : InjOn hash K) (cfg : Store.Cfg) (begin src : Nat) {s : GcSt} {off : Nat} {r : Rec} {rest : List (Nat × Rec)}
     (h : SInv cfg s src ((off, r) :: rest))
-    (hv : VInv hash K P (vlog s src ((off, r) :: rest)) s.b.tree)
+    (hv : VInv hash K P N (vlog s src ((off, r) :: rest)) s.b.tree)
     (hk : begin = 0 → KnownPre hash s src) :
     SInv cfg (gcRecord hash cfg begin src s off r) src rest
-    ∧ VInv hash K P (vlog (gcRecord hash cfg begin src s off r) src rest) (gcRecord hash cfg begin src s off r).b.tree
+    ∧ VInv hash K P N (vlog (gcRecord hash cfg begin src s off r) src rest) (gcRecord hash cfg begin src s off r).b.tree
     ∧ (begin = 0 → KnownPre hash (gcRecord hash cfg begin src s off r) src) := by
   have hx : vlog s src ((off, r) :: rest)
       = preV s src ++ ((({ chunk := src, off := off } : Pos), r) :: (tag src rest ++ postV s.b src)) := rfl
@@ -482,7 +482,7 @@ theorem record_step {P : Key → TItem → Rec → Prop} (hP : ∀ k it r p', P 
       refine ⟨k1, ?_, fun hb => by omega⟩
       unfold vlog
       rw [k2, k3, f2, f3, List.append_assoc]
-      show VInv hash K P _ (fitSt cfg s src r st).b.tree
+      show VInv hash K P N _ (fitSt cfg s src r st).b.tree
       rw [f4]
       exact hv'
     · have hn : recNewest hash begin src s off r = false := by
@@ -493,7 +493,7 @@ theorem record_step {P : Key → TItem → Rec → Prop} (hP : ∀ k it r p', P 
         · simp [hb]
       simp only [hn, Bool.not_false, if_true]
       refine ⟨sinv_stats st (sinv_tail h), ?_, fun hb y hy => hk hb y hy⟩
-      show VInv hash K P (vlog s src rest) s.b.tree
+      show VInv hash K P N (vlog s src rest) s.b.tree
       rw [hdrop]
       by_cases hb : begin = 0
       · exact vinv_drop_unknown_all hInj hv hit (hk hb)
@@ -561,12 +561,12 @@ theorem gcFile_eq (hash : Key → Nat) (cfg : Store.Cfg) (begin : Nat) (s : GcSt
 section FileStep
 variable {hash : Key → Nat} {K : Key → Prop}
 
-theorem records_fold {P : Key → TItem → Rec → Prop} (hP : ∀ k it r p', P k it r → P k { it with pos := p' } r)
+theorem records_fold {P : Key → TItem → Rec → Prop} {N : Key → Prop} (hP : ∀ k it r p', P k it r → P k { it with pos := p' } r)
     (hInj : InjOn hash K) (cfg : Store.Cfg) (begin src : Nat) :
-    ∀ (rest : List (Nat × Rec)) (s : GcSt), SInv cfg s src rest → VInv hash K P (vlog s src rest) s.b.tree →
+    ∀ (rest : List (Nat × Rec)) (s : GcSt), SInv cfg s src rest → VInv hash K P N (vlog s src rest) s.b.tree →
       (begin = 0 → KnownPre hash s src) →
       SInv cfg (rest.foldl (fun s (p : Nat × Rec) => gcRecord hash cfg begin src s p.1 p.2) s) src []
-      ∧ VInv hash K P (vlog (rest.foldl (fun s (p : Nat × Rec) => gcRecord hash cfg begin src s p.1 p.2) s) src [])
+      ∧ VInv hash K P N (vlog (rest.foldl (fun s (p : Nat × Rec) => gcRecord hash cfg begin src s p.1 p.2) s) src [])
           (rest.foldl (fun s (p : Nat × Rec) => gcRecord hash cfg begin src s p.1 p.2) s).b.tree
       ∧ (begin = 0 → KnownPre hash (rest.foldl (fun s (p : Nat × Rec) => gcRecord hash cfg begin src s p.1 p.2) s) src)
   | [], s, h, hv, hk => ⟨h, hv, hk⟩
@@ -680,13 +680,13 @@ theorem advance {cfg : Store.Cfg} {s : GcSt} {src : Nat} (b' : Bucket) (h : SInv
     rw [hpost]
     rfl
 
-theorem file_step {P : Key → TItem → Rec → Prop} (hP : ∀ k it r p', P k it r → P k { it with pos := p' } r)
+theorem file_step {P : Key → TItem → Rec → Prop} {N : Key → Prop} (hP : ∀ k it r p', P k it r → P k { it with pos := p' } r)
     (hInj : InjOn hash K) (cfg : Store.Cfg) (begin src : Nat) {s : GcSt}
     (h : SInv cfg s src (s.b.chunks src).recs) (hlt : src < s.b.head)
-    (hv : VInv hash K P (vlog s src (s.b.chunks src).recs) s.b.tree)
+    (hv : VInv hash K P N (vlog s src (s.b.chunks src).recs) s.b.tree)
     (hk : begin = 0 → KnownPre hash s src) :
     SInv cfg (gcFile hash cfg begin s src) (src + 1) ((gcFile hash cfg begin s src).b.chunks (src + 1)).recs
-    ∧ VInv hash K P (vlog (gcFile hash cfg begin s src) (src + 1) ((gcFile hash cfg begin s src).b.chunks (src + 1)).recs)
+    ∧ VInv hash K P N (vlog (gcFile hash cfg begin s src) (src + 1) ((gcFile hash cfg begin s src).b.chunks (src + 1)).recs)
         (gcFile hash cfg begin s src).b.tree
     ∧ (begin = 0 → KnownPre hash (gcFile hash cfg begin s src) (src + 1))
     ∧ (gcFile hash cfg begin s src).b.head = s.b.head
@@ -724,7 +724,7 @@ theorem file_step {P : Key → TItem → Rec → Prop} (hP : ∀ k it r p', P k 
     obtain ⟨a1, a2, a3⟩ := advance (clearSrc s' src) r1 hlt' (clearSrc_head s' src) (clearSrc_other s' src) hs
     refine ⟨a1, ?_, ?_, by rw [← rh]; exact clearSrc_head s' src, r1.dle⟩
     · rw [a2]
-      show VInv hash K P (vlog s' src []) (clearSrc s' src).tree
+      show VInv hash K P N (vlog s' src []) (clearSrc s' src).tree
       rw [clearSrc_tree]; exact r2
     · intro hb y hy
       rw [a3] at hy
@@ -834,14 +834,14 @@ theorem start_spec {cfg : Store.Cfg} {b : Bucket} (w : WF cfg b) (begin : Nat) (
 section Pass
 variable {hash : Key → Nat} {K : Key → Prop}
 
-theorem files_fold {P : Key → TItem → Rec → Prop} (hP : ∀ k it r p', P k it r → P k { it with pos := p' } r)
+theorem files_fold {P : Key → TItem → Rec → Prop} {N : Key → Prop} (hP : ∀ k it r p', P k it r → P k { it with pos := p' } r)
     (hInj : InjOn hash K) (cfg : Store.Cfg) (begin : Nat) (s0 : GcSt) :
     ∀ n, begin + n ≤ s0.b.head →
-      SInv cfg s0 begin (s0.b.chunks begin).recs → VInv hash K P (vlog s0 begin (s0.b.chunks begin).recs) s0.b.tree →
+      SInv cfg s0 begin (s0.b.chunks begin).recs → VInv hash K P N (vlog s0 begin (s0.b.chunks begin).recs) s0.b.tree →
       (begin = 0 → KnownPre hash s0 begin) →
       SInv cfg ((List.range n).foldl (fun s i => gcFile hash cfg begin s (begin + i)) s0) (begin + n)
           (((List.range n).foldl (fun s i => gcFile hash cfg begin s (begin + i)) s0).b.chunks (begin + n)).recs
-      ∧ VInv hash K P (vlog ((List.range n).foldl (fun s i => gcFile hash cfg begin s (begin + i)) s0) (begin + n)
+      ∧ VInv hash K P N (vlog ((List.range n).foldl (fun s i => gcFile hash cfg begin s (begin + i)) s0) (begin + n)
           (((List.range n).foldl (fun s i => gcFile hash cfg begin s (begin + i)) s0).b.chunks (begin + n)).recs)
           ((List.range n).foldl (fun s i => gcFile hash cfg begin s (begin + i)) s0).b.tree
       ∧ (begin = 0 → KnownPre hash ((List.range n).foldl (fun s i => gcFile hash cfg begin s (begin + i)) s0) (begin + n))
@@ -888,11 +888,11 @@ theorem gcRun_eq (hash : Key → Nat) (cfg : Store.Cfg) (b : Bucket) (begin stop
 /-- THE PASS: from a well-formed bucket whose tree describes the last record of every key, `gcRun` over any range
     below the head leaves a well-formed bucket whose tree again describes the last record of every key, with the same
     `P` facts (content of the record, version, agreement with the reference) -/
-theorem gcRun_vinv {P : Key → TItem → Rec → Prop} (hP : ∀ k it r p', P k it r → P k { it with pos := p' } r)
+theorem gcRun_vinv {P : Key → TItem → Rec → Prop} {N : Key → Prop} (hP : ∀ k it r p', P k it r → P k { it with pos := p' } r)
     (hInj : InjOn hash K) (cfg : Store.Cfg) {b : Bucket} (w : WF cfg b) (begin stop : Nat) (hbs : begin ≤ stop)
-    (hs : stop < b.head) (hv : VInv hash K P b.log b.tree) :
+    (hs : stop < b.head) (hv : VInv hash K P N b.log b.tree) :
     WF cfg (gcRun hash cfg b begin stop).1
-    ∧ VInv hash K P (gcRun hash cfg b begin stop).1.log (gcRun hash cfg b begin stop).1.tree
+    ∧ VInv hash K P N (gcRun hash cfg b begin stop).1.log (gcRun hash cfg b begin stop).1.tree
     ∧ (gcRun hash cfg b begin stop).1.head = b.head := by
   rw [gcRun_eq]
   obtain ⟨s1, s2, s3⟩ := start_spec w begin (by omega) {}
